@@ -226,6 +226,19 @@ def oracle_phase(case, ctx):
         if not np.isclose(comp[i], base[i % sp], rtol=1e-9, atol=1e-9):
             discs.append(D("component_not_periodic_on_training_series", "sp=%d i=%d: %r vs %r" % (sp, i, comp[i], base[i % sp])))
             return discs
+    # ... and is the seasonal component of the classical decomposition of the training series
+    # (computed here with statsmodels directly), position by position
+    if spec["kind"] == "deseason" or getattr(t, "is_seasonal_", False):
+        from statsmodels.tsa.seasonal import seasonal_decompose
+
+        ref = sut(lambda: np.asarray(seasonal_decompose(pd.Series(np.asarray(z, dtype=float)), model=model, period=sp, filt=None, two_sided=True,
+                                                        extrapolate_trend=0).seasonal, dtype=float))
+        if not isinstance(ref, Raised) and len(ref) == len(comp) and np.all(np.isfinite(ref)):
+            ctx.label("component_compared_with_decomposition")
+            if not np.allclose(comp, ref, rtol=1e-8, atol=1e-8):
+                bad = int(np.argmax(~np.isclose(comp, ref, rtol=1e-8, atol=1e-8)))
+                return [D("component_is_not_the_decomposition", "sp=%d model=%s: training position %d removed %r, seasonal component of the decomposition %r"
+                          % (sp, model, bad, comp[bad], ref[bad]))]
     u = do_updates(t, z, case, spec)
     if isinstance(u, Raised):
         return [D("update_raised:%s" % u.type, u.msg)]
